@@ -17,7 +17,7 @@
     what [claim_htlc]/[fail_htlc]/[insert_from_monitor_on_startup] are called with.
 
     Outputs are the [Event] constructors plus a few ghost markers ([OCreated], [OClaimHit],
-    [ONew]) which the theorems use to delimit the lifetime of a map entry.
+    [OGone], [ONew]) which the theorems use to delimit the lifetime of a map entry.
 
     Not modelled: [Retry::Timeout] (wall clock), [Legacy], [AwaitingOffer], [InvoiceReceived],
     [StaticInvoiceReceived] entries, BOLT 12 invoices, blinded tails, trampoline, the
@@ -60,6 +60,8 @@ Inductive out : Type :=
 | OClaimHit (id : Z)                         (* ghost: claim_htlc found an entry for [id] *)
 | ONew (sp id hash amt fee : Z) (r : sres)   (* ghost: session priv allocated for a path *)
 | ORes (r : Z)                               (* 0 Ok, 1 DuplicatePayment, 2 RouteNotFound *)
+| OGone (id why : Z)                         (* ghost: the entry of [id] was removed without a
+                                                PaymentFailed: 0 idempotency timeout, 1 probe resolved *)
 | OPanic.                                    (* a debug_assert!/assert! of the Rust code fires *)
 
 Inductive ans : Type :=
@@ -101,7 +103,8 @@ Fixpoint ins {A} (k : Z) (v : A) (m : list (Z * A)) : list (Z * A) :=
 Definition set {A} (k : Z) (o : option A) (m : list (Z * A)) : list (Z * A) :=
   match o with Some v => ins k v m | None => del k m end.
 
-Definition keys {A} (m : list (Z * A)) : list Z := map fst m.
+(** the distinct keys (a HashMap has every key once) *)
+Definition keys {A} (m : list (Z * A)) : list Z := nodup Z.eq_dec (map fst m).
 
 (** ** session-priv sets *)
 Definition mem (x : Z) (l : list Z) : bool := existsb (Z.eqb x) l.
@@ -266,7 +269,7 @@ Definition fail_t (id sp amt fee : Z) (perm probe : bool) : etrans := fun _ e =>
         if is_nil (parts_of p2) then
           match p2 with
           | Abandoned _ h r _ _ =>
-              (None, OEv pathev :: (if probe then [] else [OEv (EvFailed id (Some h) r)]))
+              (None, OEv pathev :: (if probe then [OGone id 1] else [OEv (EvFailed id (Some h) r)]))
           | _ => (Some p2, [OEv pathev])
           end
         else (Some p2, [OEv pathev])
@@ -287,7 +290,7 @@ Definition tick_t (q : list event) (id : Z) : etrans := fun _ e =>
       let no_remaining_entries := is_nil parts && negb (existsb (ev_related id) q) in
       if no_remaining_entries then
         if ticks + 1 <=? IDEMPOTENCY_TIMEOUT_TICKS then (Some (Fulfilled parts h (ticks + 1) tot f), [])
-        else (None, [])
+        else (None, [OGone id 0])
       else (Some (Fulfilled parts h 0 tot f), [])
   | Some (AwaitingInvoice n r) =>
       if 0 <? n then (Some (AwaitingInvoice (n - 1) r), [])
@@ -599,6 +602,7 @@ Definition show_out (o : out) : list Z :=
   | ONew sp id hash amt fee r => [12; id; sp; hash; amt; fee; sres_z r]
   | ORes r => [13; r]
   | OPanic => [14]
+  | OGone id why => [15; id; why]
   end.
 
 Definition show_state (s : state) : list (list Z) :=
